@@ -220,10 +220,17 @@ TOOLS = {
 }
 
 
-def ensure_tool(tool, variant="plain"):
+def ensure_tool(tool, variant="plain", wrap=False):
+    """command-line tool built from the working tree; wrap=True links harness/iowrap_tool.c so
+    that ZH_FAULT=<op>:<k>:<kind>:<short> makes the k-th read/write/lseek fail"""
     d = ensure_lib(variant)
     cc, cflags, ldflags, ossl = VARIANTS[variant]
-    exe = os.path.join(d, tool)
+    exe = os.path.join(d, tool + ("_wrap" if wrap else ""))
+    if wrap:
+        hh = hashlib.sha256()
+        for f in ("iowrap.h", "iowrap_tool.c"):
+            hh.update(open(os.path.join(VERIF, "harness", f), "rb").read())
+        exe += "_" + hh.hexdigest()[:8]
     with Lock():
         if os.path.exists(exe):
             return exe
@@ -233,6 +240,9 @@ def ensure_tool(tool, variant="plain"):
         if ossl:
             cmd.append("-DZCHUNK_OPENSSL")
         cmd += [os.path.join(REPO, "src", s) for s in TOOLS[tool]]
+        if wrap:
+            cmd += ["-I" + os.path.join(VERIF, "harness"), os.path.join(VERIF, "harness", "iowrap_tool.c"),
+                    "-Wl,--wrap=read", "-Wl,--wrap=write", "-Wl,--wrap=lseek", "-Wl,--wrap=lseek64"]
         cmd += ["-o", exe + ".tmp", os.path.join(d, "libzck.a")] + ldflags + ["-lzstd", "-lcrypto"]
         if tool == "zckdl":
             cmd.append("-lcurl")
